@@ -116,12 +116,14 @@ func evalCase(c Case) reply {
 			}
 			ok := false
 			for _, d := range decls {
-				if d.Name == ch.Path && d.Length == uint64(len(after[ch.Path].Data)) && d.MD5 == md5.Sum(after[ch.Path].Data) {
+				// the property is about the archive's own file hashes; how a non-ASCII or otherwise odd declared name is
+				// mapped to a path inside the directory is C15's business, so any declared entry with this length/MD5 counts
+				if d.Length == uint64(len(after[ch.Path].Data)) && d.MD5 == md5.Sum(after[ch.Path].Data) {
 					ok = true
 				}
 			}
 			if !ok {
-				msg = fmt.Sprintf("wrote %q (%d bytes) whose length/MD5 do not match what the archive declares for that name", ch.Path, len(after[ch.Path].Data))
+				msg = fmt.Sprintf("wrote %q (%d bytes) whose length/MD5 match no file entry the archive declares", ch.Path, len(after[ch.Path].Data))
 				break
 			}
 		}
@@ -246,7 +248,7 @@ func u64grid(v uint64) []uint64 {
 
 func par2Singles() []Mut {
 	var ms []Mut
-	for _, v := range append(u64grid(4), 8, 12, 1<<20, 1<<33, 1<<46) {
+	for _, v := range append(u64grid(8), 4, 12, 16, 1<<20, 1<<33, 1<<46) {
 		ms = append(ms, Mut{"slice_size", v})
 	}
 	for _, v := range []uint64{0, 1, 3, 4, 1 << 31, 1<<32 - 1} {
@@ -256,7 +258,7 @@ func par2Singles() []Mut {
 		ms = append(ms, Mut{"ids:" + m, 0})
 	}
 	for i := 0; i < 2; i++ {
-		for _, v := range u64grid([]uint64{10, 7}[i]) {
+		for _, v := range u64grid([]uint64{20, 9}[i]) {
 			ms = append(ms, Mut{fmt.Sprintf("f%d.length", i), v})
 		}
 		ms = append(ms, Mut{fmt.Sprintf("f%d.md5", i), 1}, Mut{fmt.Sprintf("f%d.md516k", i), 1})
@@ -272,7 +274,7 @@ func par2Singles() []Mut {
 		for _, v := range []uint64{0, 1, 5, 6, 7, 100, 4369, 32767, 65534, 65535, 65536, 1 << 31, 1<<32 - 1} {
 			ms = append(ms, Mut{fmt.Sprintf("r%d.exp", j), v})
 		}
-		for _, v := range []uint64{0, 8, 12, 16, 400} {
+		for _, v := range []uint64{0, 4, 12, 16, 400} {
 			ms = append(ms, Mut{fmt.Sprintf("r%d.len", j), v})
 		}
 	}
@@ -331,7 +333,7 @@ func declaredSlice(c Case) uint64 {
 			return m.Val
 		}
 	}
-	return 4
+	return 8
 }
 
 // knownKey: signatures of recorded findings.
@@ -424,8 +426,45 @@ func TestCheck(t *testing.T) {
 			}
 		}
 	}
+	// exhaustive pairs: every structural mutation (packet removal/duplication, ID-list shape, recovery block size) with every single mutation
+	var structural []Mut
+	for _, m := range s2 {
+		if strings.HasPrefix(m.Field, "drop:") || strings.HasPrefix(m.Field, "dup:") || strings.HasPrefix(m.Field, "ids:") || (strings.HasSuffix(m.Field, ".len") && m.Val < 16) {
+			structural = append(structural, m)
+		}
+	}
+	for _, a := range structural {
+		for _, b := range s2 {
+			if a == b || (!cfg.Thorough() && strings.HasPrefix(b.Field, "pktlen:")) {
+				continue
+			}
+			for _, dp := range []int{0, 2} {
+				idx++
+				if cfg.Mine(idx) {
+					do(Case{Format: "par2", Muts: []Mut{a, b}, DataPresent: dp})
+				}
+			}
+		}
+	}
+	var structural1 []Mut
+	for _, m := range s1 {
+		if m.Field == "addentries" || m.Field == "vol.datalen" || strings.HasSuffix(m.Field, ".status") {
+			structural1 = append(structural1, m)
+		}
+	}
+	for _, a := range structural1 {
+		for _, b := range s1 {
+			if a == b || (!cfg.Thorough() && len(b.Field) > 1 && b.Field[0] == 'h' && b.Field[1] != '0' && b.Field[1] != '2') {
+				continue
+			}
+			idx++
+			if cfg.Mine(idx) {
+				do(Case{Format: "par1", Muts: []Mut{a, b}, DataPresent: idx % 3})
+			}
+		}
+	}
 	// consistent sets with one slice per file and a large declared slice size
-	for _, v := range []uint64{8, 16, 64, 4096, 1 << 20, 1 << 27, 1 << 31, 1 << 40, 1 << 47, 1<<62 + 4, 1<<63 - 4} {
+	for _, v := range []uint64{24, 32, 64, 4096, 1 << 20, 1 << 27, 1 << 31, 1 << 40, 1 << 47, 1<<62 + 4, 1<<63 - 4} {
 		for _, dp := range []int{0, 1, 2} {
 			idx++
 			if cfg.Mine(idx) {
